@@ -510,7 +510,13 @@ def gen_infinite(rng):
 def gen_spawn_cancel(rng):
     """Programs with spawned cores for the cancellation check: (source, number of cores, finite?)."""
     n = rng.randrange(1, 5)
-    kind = rng.choice(["inf", "inf", "fin", "sleep", "mixed"])
+    kind = rng.choice(["inf", "inf", "fin", "sleep", "mixed", "relay"])
+    if kind == "relay":
+        # a relay of short-lived cores (each far below one quantum of instructions): every core prints, spawns its
+        # successor and ends; a core that is not polled before it runs lets the relay outlive the cancellation
+        length = rng.choice([60, 120, 200])
+        return (f'fn relay(n: int) {{ print(n); if n < {length} {{ spawn relay(n + 1); }} }}\nfn main() {{ spawn relay(0); }}\n',
+                length + 2, True)
     if kind == "inf":
         w = 'fn worker(n: int) { let i = 0; loop { i += n; } }'
         m = "loop { }"
